@@ -129,8 +129,7 @@ def runModel (ts : List String) : String :=
     | [sch, ps] =>
       match natList sch, parseProgs ps with
       | some sch, some progs =>
-        let tr := runSched burstNow sch FMap.empty progs
-        renderThreads ((List.range progs.length).map (fun i => (project i tr).map Spec.render))
+        renderThreads (observeThreads Spec.render progs.length (runSched burstNow sch FMap.empty progs))
       | _, _ => "bad-case"
     | _ => "bad-case"
   | "hammer" :: _ => "ok"
